@@ -8,6 +8,9 @@ CONSTANTS
   Dev_IdZeroAfterMainRemoved = FALSE
   Dev_TerminateKeepsObjects = TRUE
   Dev_FailedAddLeavesEntry = FALSE
+  ClientSide = FALSE
+  Dev_ClientRemoveKeepsEntry = FALSE
+  Dev_ClientLateCallDropped = FALSE
 CONSTRAINT Bounded
 INVARIANTS TypeOK UniqueLiveIds TerminateHookExactlyOnce SubscribersTold NoCrash
 PROPERTIES NoInvocationAfterRemoval NoLateSubscription OthersUnaffected
